@@ -2,6 +2,7 @@
 #include <gmssl/sm2.h>
 #include <gmssl/asn1.h>
 #include "vh.h"
+#include <openssl/err.h>
 #include "venv.h"
 #include "der.h"
 #include "sm2_ref.h"
